@@ -16,7 +16,7 @@ from .driver import make_exc
 ASYNC_FLAVOURS = ("agen", "aclass", "aclass_noclose", "aplain", "agenlike", "aeager", "aproxy", "areiter")
 SYNC_FLAVOURS = ("list", "seq", "iter", "tuple", "tuplesub", "reiter")
 SRC_FLAVOURS = ASYNC_FLAVOURS + SYNC_FLAVOURS
-FN_FLAVOURS = ("def", "async", "partial", "obj", "objaw", "falsyobj", "eqobj", "unhashobj", "aeqobj")
+FN_FLAVOURS = ("def", "async", "partial", "obj", "objaw", "falsyobj", "eqobj", "unhashobj", "aeqobj", "gencoro")
 
 
 class SourceBase:
@@ -584,6 +584,22 @@ class Fn:
                 return await coro(*args)
 
             return functools.partial(coro2, "extra")
+        if fl == "gencoro":
+            import types
+
+            @types.coroutine
+            def gen_body(*args):
+                # a generator-based coroutine: awaitable for ``await`` and inspect.isawaitable, although it is
+                # not an instance of collections.abc.Awaitable
+                for _ in range(self.susp):
+                    yield from self.ctx.suspend((self.name, "call")).__await__()
+                return self._result(args)
+
+            def gencoro(*args):
+                self.invoked += 1
+                return gen_body(*args)
+
+            return gencoro
         if fl == "falsyobj":
             outer2 = self
 
